@@ -11,6 +11,12 @@ if os.path.exists(p):
     reasons = json.load(open(p))
 hooks_p = os.path.join(V, "registry", "_hooks.json")
 hooks = json.load(open(hooks_p)) if os.path.exists(hooks_p) else {"source_commits": []}
+try:
+    import subprocess
+    out = subprocess.run(["git", "-C", "/repo", "log", "--format=%h %s"], capture_output=True, text=True).stdout
+    hooks["source_commits"] = [l.split(" ", 1)[0] for l in out.split("\n") if " verif hooks" in l][::-1]
+except Exception:
+    pass
 checks, na, engines = [], [], {}
 ready_p = os.path.join(V, "registry", "_ready.json")
 ready = set(json.load(open(ready_p))) if os.path.exists(ready_p) else None
